@@ -252,6 +252,7 @@ def run(vc):
             check(pwl, "element", "et", element_type, "pwl_cost.element")
         vc.explore(f"reindex_elements[{element_type}]", h_re, max_paths=200)
     run_select_cost(vc)
+    run_inner_branches(vc)
     _standin(vc)
 
 
@@ -286,9 +287,46 @@ def _standin(vc):
         name="reference integrity after edits of a fixed network",
         bound="12 edit operations (drop_elements, drop_elements_simple, drop_lines, drop_trafos, drop_buses, reindex_elements x3, "
               "create_continuous_elements_index, select_subnet x2, drop_inactive_elements) on example_multivoltage with groups (index and "
-              "reference column), t3 switch, costs on four element types (two sharing an element number), measurements; "
+              "reference column), t3 switch, costs on four element types (two sharing an element number), measurements on branches and bus elements; "
               "the listed known finding (result table index after reindex_elements) is excluded",
         script="from replaylib.references import main\nmain()\n"))
+
+
+def run_inner_branches(vc):
+    """_inner_branches(net, buses, 'drop') (fuse_buses, drop_inner_branches): every branch table is reduced through the drop function of its own
+    kind -- lines through drop_lines, transformers through drop_trafos *of their own table*, the others through a function that also detaches
+    group members and drops result rows, measurements and costs (drop_elements_simple) -- never by a bare DataFrame.drop."""
+    def h(p):
+        log = []
+        p.it.attr_hooks.append((GTable, gtable_attr))
+        p.it.attr_hooks.append((GNet, gnet_attr))
+        net = GNet(log, TABLES + ["dcline", "res_dcline", "res_switch"])
+        me = p.it.modenv(GM)
+        me.vals["branch_element_bus_dict"] = Native(lambda it, include_switch=False, **k: PDict({
+            "line": ["from_bus", "to_bus"], "impedance": ["from_bus", "to_bus"], "switch": ["bus"], "trafo": ["hv_bus", "lv_bus"],
+            "trafo3w": ["hv_bus", "mv_bus", "lv_bus"], "dcline": ["from_bus", "to_bus"]}), name="branch_element_bus_dict")
+        me.vals["any"] = Native(lambda it, v: True, name="any")          # every table has inner branches
+        me.vals["drop_lines"] = Native(lambda it, n, idx, **k: log.append(("drop_lines",)), name="drop_lines", pure=False)
+        me.vals["drop_trafos"] = Native(lambda it, n, idx, table="trafo", **k: log.append(("drop_trafos", table)), name="drop_trafos", pure=False)
+        me.vals["drop_elements_simple"] = Native(lambda it, n, et, idx, **k: log.append(("drop_elements_simple", et)), name="drop_elements_simple", pure=False)
+        me.vals["detach_from_groups"] = Native(lambda it, n, et, idx, index=None: log.append(("detach", et, n.tables[et].version)),
+                                               name="detach_from_groups", pure=False)
+        from pyvc.interp import Namespace
+        me.vals["pd"] = Namespace("pandas", {"Series": Native(lambda it, *a, **k: Opaque("mask"), name="Series")})
+        out = p.call(f"{GM}:_inner_branches", net, Opaque("buses"), "drop")
+        if out.raised:
+            raise EngineError(f"_inner_branches raised {out.exc!r}")
+        meta = dict(part="inner-branches")
+        p.prove("inner-branches: lines go through drop_lines", ("drop_lines",) in log, meta=meta)
+        tr = [e[1] for e in log if e[0] == "drop_trafos"]
+        p.prove("inner-branches: two-winding transformers are dropped from net.trafo, three-winding transformers from net.trafo3w",
+                sorted(tr) == ["trafo", "trafo3w"], meta=meta, note="drop_trafos drops from the table it is given (default 'trafo')")
+        for et in ("impedance", "dcline", "switch"):
+            bare = [e for e in log if e[0] in ("drop", "assign") and e[1] == et]
+            via = ("drop_elements_simple", et) in log or any(e[0] == "detach" and e[1] == et and e[2] == 0 for e in log)
+            p.prove(f"inner-branches: {et} rows are not dropped without their group members, results, measurements and costs", via, meta=meta,
+                    note=f"bare drops seen: {len(bare)}")
+    vc.explore("_inner_branches[drop]", h, max_paths=40)
 
 
 COST_TYPES = ["gen", "sgen", "ext_grid", "load", "storage", "dcline"]
@@ -345,6 +383,10 @@ def replay(ob, model, finding=None):
     if finding == KNOWN_RES or ob.meta.get("part") == "reindex-res":
         return {"script": f"# replay of {ob.id}\nfrom replaylib.references import main_known_res_index\nmain_known_res_index()\n",
                 "description": "reindex_elements(net, 'line', new indices) on a network with results: res_line keeps the old index"}
+    if ob.meta.get("part") == "inner-branches":
+        return {"script": f"# replay of {ob.id}\nfrom replaylib.references import main_inner\nmain_inner()\n",
+                "description": "fuse_buses with a switch, an impedance and a dcline (with cost, in a group) between the fused buses; drop_inner_branches with a "
+                               "trafo and a trafo3w of the same index"}
     return {"script": f"# replay of {ob.id}\nfrom replaylib.references import main\nmain()\n",
             "description": "drop / reindex operations on a network with groups (with reference columns), switches of all kinds, measurements and costs: "
                            "every reference points to an existing row afterwards"}
